@@ -198,14 +198,14 @@ func (g *gen) genError(typs []types.Type) error {
 	p.P("return func(%s) %s {", strings.Join(firstVarTypes, ", "), wrap(strings.Join(resultStrs[len(resultStrs)-1], ", ")))
 	p.In()
 	for i := range params {
-		p.P("%s, err%d := %s(%s)", strings.Join(vars[i+1], ", "), i, fs[i], strings.Join(vars[i], ", "))
+		p.P("%s := %s(%s)", strings.Join(append(append([]string{}, vars[i+1]...), "err"+strconv.Itoa(i)), ", "), fs[i], strings.Join(vars[i], ", "))
 		p.P("if err%d != nil {", i)
 		p.In()
-		p.P("return %s, err%d", strings.Join(zeros, ", "), i)
+		p.P("return %s", strings.Join(append(append([]string{}, zeros...), "err"+strconv.Itoa(i)), ", "))
 		p.Out()
 		p.P("}")
 	}
-	p.P("return %s, nil", strings.Join(vars[len(vars)-1], ", "))
+	p.P("return %s", strings.Join(append(append([]string{}, vars[len(vars)-1]...), "nil"), ", "))
 	p.Out()
 	p.P("}")
 	p.Out()
